@@ -1,4 +1,9 @@
 """C14 - every documented unit name resolves to exactly one, correctly scaled unit."""
+import copy
+import keyword
+import os
+import random
+
 import z3
 
 from .common import PREFIX, And, Case, Or, SymBool, call, close, exact_eq
@@ -14,7 +19,13 @@ MANIFEST = dict(
           "the real parser/lookup. (b) bounded symbolic execution of the real name resolution (parse_unyt_expr, "
           "_auto_positive_symbol, _lookup_unit_symbol, _split_prefix, Unit.__new__, add_symbols) for every exposed name against "
           "a registry whose ~145 base scales are z3 reals: base_value == prefix * s_canonical by string, by attribute and "
-          "through a custom registry namespace, decided by z3 for all scales; the name space itself is finite and enumerated."),
+          "through a custom registry namespace, decided by z3 for all scales; the name space itself is finite and enumerated. "
+          "(c) registry configurations: the documented names keep their reading in a registry to which a further unit t was added, "
+          "for every t that is the tail of a documented spelling after an SI prefix symbol (z3 string query, proved complete: "
+          "'a' for Pa/ha, 'x' for Mx, 'ol' for mol, 'ascal' for Pascal ...), prefixable and not, over 9 histories of registry calls "
+          "(constructed with the row, add, define_unit, use-then-add, add-remove, re-add with the other flag, add-modify, "
+          "copy-then-remove; symbolic and plain default table) run inside one path: colliding spelling == table reading, "
+          "prefix x added unit == prefix * s_t, non-prefixable / removed unit rejected, for all scales."),
     design="DESIGN.md section 4 C14",
     technique="SMT string queries (z3 seq) with all-SAT + completeness; symbolic execution of the real lookup over z3 real scales; replay")
 EXPLANATION = (
@@ -26,18 +37,40 @@ EXPLANATION = (
     "symbol and alias lists. Ambiguity is decided by z3 over all strings: the set of strings with >= 2 readings is enumerated by "
     "all-SAT and proved complete (unsat), then each is resolved by the real code. Ground parts: the attribute objects of the default "
     "registry are compared with table value x prefix as exact-rational facts; rejection of prefix ++ non-prefixable spellings is an "
-    "enumerated concrete fact (an exception class), the solver's part there is the string query that lists the exceptions."
+    "enumerated concrete fact (an exception class), the solver's part there is the string query that lists the exceptions. "
+    "Registry configurations (custom/*): 'no string has two readings' is a statement about every registry that holds the documented "
+    "table, so the registry is an axis of its own. A string query over ALL strings lists the documented spellings that split as "
+    "prefix symbol ++ tail with the tail no table symbol (proved complete, all-SAT for the listed kinds); each tail t is then added "
+    "as a unit of symbolic scale s_t (dimension time) to a registry with the documented table - prefixable and non-prefixable, by "
+    "each of 9 histories of real registry calls executed in one path - and the real resolution of the colliding spellings, of "
+    "their other spellings (aliases, k/m/da forms), of prefix ++ t and of t itself is compared with an independent reader "
+    "(documented reading first; prefix ++ t only for a prefixable row; nothing after removal): base_value == s_canonical * prefix "
+    "resp. s_t * prefix is decided by z3 for all 145+2 scales, and add_symbols(ns, registry) must hand out the same units."
 )
 BOUNDS = {
     "quick": "all 3872 exposed names x {string, attribute (unit_symbols + top level), add_symbols namespace of a custom registry}, 145 symbolic "
              "base scales; string queries over ALL strings: 24 pairs of 7 reading kinds + 42 (prefix family x non-prefixable base family x "
              "reading kind) languages, each enumerated by all-SAT and proved complete; rejection sweep: every prefix symbol x "
-             "non-prefixable symbol/alias and every prefix word x non-prefixable symbol (~7000 strings)",
-    "thorough": "same, plus prefix word x every non-prefixable alias and the title-case spellings in the rejection sweep (~25000 strings)",
+             "non-prefixable symbol/alias and every prefix word x non-prefixable symbol (~7000 strings); registry configurations: "
+             "7 string queries (documented spelling = prefix symbol ++ tail, per reading kind: unsat proof that the list is complete; all-SAT re-enumeration for the symbol and title-symbol kinds); "
+             "every tail of a table symbol (51: a, x, ol, yn, r, p, sun, _pl ...) x {prefixable, non-prefixable} x 9 histories "
+             "(built, add, plain-add, plain-define, use-add, add-remove, flip, add-modify, copy-remove): 'built' with all 22 prefixes, the "
+             "other spellings of the colliding unit and the add_symbols namespace, the other histories with the colliding spellings, "
+             "the prefixes k, m, da, P and t itself; every tail of a listed alias / title-case alias "
+             "or symbol (121) and a VERIF_SEED sample of 24 tails each of prefixed-symbol, prefix-word and title prefix-word "
+             "spellings x both flags x {built, add, plain-define} with the colliding spellings and the prefixes k, m, da, P; "
+             "tails are python identifiers that are no table symbol; 145 table scales + 2 scales of the added row symbolic",
+    "thorough": "same, plus prefix word x every non-prefixable alias and the title-case spellings in the rejection sweep (~25000 strings); "
+                "registry configurations: all 9 histories for every family ('add' with the full battery too), samples of 160 prefix-word / "
+                "title prefix-word tails, all 59 prefixed-symbol tails, all-SAT re-enumeration for the alias kinds as well",
 }
 OUTSIDE = ("strings that are no documented spelling and no prefix+unit split (user-defined names: C12/C13); malformed expressions (C20); "
            "LaTeX representation; the alias list itself is the documentation (taken as given); top-level names shadowed by a physical "
-           "constant are C15(c)")
+           "constant are C15(c); registries: one added row at a time (no two user rows that collide with each other), a row "
+           "whose name is a table symbol (re-definition: C12), the reading of an added row whose own name is a documented "
+           "spelling ('amol': the user re-defines it, C12), 'd' ++ a user unit starting with 'a' (unyt tries 'da' first and splits "
+           "once), tails that are no python identifier or are keywords ('in', 'as'), define_unit on the process-wide default "
+           "registry (C13), registries restored from JSON / pickle (C11)")
 CONFORM = {"quick": 8, "thorough": 16}
 CHUNK = 100
 
@@ -310,6 +343,341 @@ def make_reject_case(k, chunk, exc):
     return Case(f"C14/strings/reject/{k:02d}", h, bounds=f"{len(chunk)} prefix++non-prefixable strings")
 
 
+# ------------------------------------------------------------------------------------------------ (c) registry configurations
+# The documented names must keep their reading in EVERY registry that contains the documented table, whatever else a user
+# has put next to it.  The region explored here: a registry to which one further unit `t` was added, where `t` is the TAIL of
+# a documented spelling after an SI prefix symbol (t = "a" for "Pa"/"ha", "x" for "Mx", "ol" for "mol", "ascal" for "Pascal",
+# "ilometer" for "kilometer" ...), so that the documented spelling admits a second reading prefix ++ t in that registry.
+# Discrete axes: the tail (from a z3 string query, proved complete), the prefixable flag of the added row, the way the row got
+# there (history of registry calls inside one path) and the registry it was added to.  Continuous: the 145 base scales and
+# the scale(s) of the added row.
+
+COLLIDER_KINDS = ("symbol", "alias", "title-symbol", "title-alias", "psym", "pword", "title-pword")
+SAMPLED_KINDS = ("psym", "pword", "title-pword")          # thousands of tails with one mechanism each: seeded sample
+HISTORIES = ("built", "add", "plain-add", "plain-define", "use-add", "add-remove", "flip", "add-modify", "copy-remove")
+CORE_PREFIXES = ("k", "m", "da", "P")
+
+
+_MEMO = {}
+
+
+def _expected(name, T):
+    """memo of the independent reader (the tables are static; filled in the parent process for the laid-out strings)"""
+    k = ("e", name)
+    if k not in _MEMO:
+        _MEMO[k] = expected(name, T)
+    return _MEMO[k]
+
+
+def _label_of(name, T):
+    k = ("l", name)
+    if k not in _MEMO:
+        _MEMO[k] = label_of(name, T)
+    return _MEMO[k]
+
+
+def _usable_tail(t, T):
+    """a string a user can give to registry.add and write in a unit expression, and that is not itself a table symbol
+    (re-defining a table symbol is C12)"""
+    return bool(t) and t.isidentifier() and not keyword.iskeyword(t) and t not in T.rows and t not in _PARSER_GLOBALS
+
+
+_PARSER_GLOBALS = ("Symbol", "Integer", "Float", "Rational", "sqrt")
+
+
+def _kind_strings(T, kind):
+    k = next(k for k in T.kinds() if k[0] == kind)
+    return {p + b for p in k[1] for b in k[2]}
+
+
+def py_colliders(T, kind):
+    """reader's list: documented spellings of this reading kind that also read as prefix symbol ++ t for a usable tail t;
+    returns {tail: [spellings]}"""
+    out = {}
+    for d in sorted(_kind_strings(T, kind)):
+        for p in PREFIX_SYMS:
+            if d.startswith(p) and _usable_tail(d[len(p):], T):
+                out.setdefault(d[len(p):], []).append(d)
+    return out
+
+
+def z_collider_regex(T, kind):
+    """the same set as a regular language over ALL strings: (reading of this kind) and (prefix symbol ++ non-empty tail that is
+    no table symbol). Usability of the tail as a python identifier is a filter applied afterwards (it is not regular over
+    unicode in z3's alphabet), so the z3 language is a superset that the reader's unfiltered list must match."""
+    k = next(k for k in T.kinds() if k[0] == kind)
+    sigma = z3.AllChar(z3.ReSort(z3.StringSort()))
+    tail = z3.Intersect(z3.Plus(sigma), z3.Complement(_ru(T.syms)))
+    return z3.Intersect(_rcat(k[1], k[2]), z3.Concat(_ru(PREFIX_SYMS), tail))
+
+
+def py_collider_strings(T, kind):
+    """unfiltered reader's list for the z3 comparison"""
+    return sorted(d for d in _kind_strings(T, kind)
+                  if any(d.startswith(p) and len(d) > len(p) and d[len(p):] not in T.rows for p in PREFIX_SYMS))
+
+
+def make_tails_complete_case(kind, allsat=True):
+    """for ALL strings s: (s has a documented reading of this kind and splits as prefix symbol ++ tail, tail no table symbol)
+    -> s is in the reader's list from which the registry configurations below are laid out; for the small kinds also the
+    all-SAT enumeration, which must terminate and reproduce the list"""
+    def h(ctx):
+        T = tables()
+        LIST = py_collider_strings(T, kind)
+        default = LIST[0] if LIST else "Pa"
+        s = ctx.zconst("s", z3.StringSort(), default)
+        label = f"every documented spelling with a prefix ++ tail split is enumerated/{kind}"
+        if ctx.pinned:
+            s = default
+        if isinstance(s, str):
+            member = any(s.startswith(p) and len(s) > len(p) and s[len(p):] not in T.rows for p in PREFIX_SYMS) and s in _kind_strings(T, kind)
+            ctx.require(label, (not member) or s in LIST, s=s)
+            return
+        R = z_collider_regex(T, kind)
+        ctx.require(label, SymBool(z3.Not(z3.InRe(s, z3.Intersect(R, z3.Complement(_ru(LIST))) if LIST else R))))
+        if not ctx.pinned and allsat:
+            found, complete = all_sat_re(R, limit=400)
+            ctx.require("all-SAT enumeration terminated with unsat", complete, found=found)
+            ctx.require("all-SAT enumeration equals the reader's list", found == LIST, found=found, reader=LIST)
+    return Case(f"C14/strings/complete-tails/{kind}", h, bounds="all strings (z3 sequence theory), finite membership constraints",
+                budget_s=600, weight=8, oblig_timeout_ms=120000)
+
+
+def ext_reading(name, T, t, flag, present=True):
+    """independent reader for the registry (documented table + added row t): ('doc', (prefix value, symbol)) for every
+    documented spelling (documented readings outrank anything a user adds next to them), ('user', prefix value) for t itself
+    and, if the row is prefixable, for prefix symbol ++ t; ('skip', None) where C14 makes no statement; None = no reading"""
+    doc = _expected(name, T)
+    if doc is not None:
+        # a user who names a row like a documented prefixed spelling ("amol") re-defines that spelling on purpose: C12
+        return ("skip", None) if (present and name == t) else ("doc", doc)
+    if keyword.iskeyword(name) or name in _PARSER_GLOBALS or not name.isidentifier():
+        return ("skip", None)
+    if not present:
+        return None
+    if name == t:
+        return ("user", 1.0)
+    for p in PREFIX_SYMS:                       # 'da' is listed before 'd': deca is tried first
+        if name == p + t:
+            if name.startswith("da") and p != "da":
+                return ("skip", None)           # unyt splits once and tries 'da' first: 'd' ++ 'a...' of a user unit is C12's matter
+            return ("user", PREFIX[p]) if flag else None
+    return None
+
+
+class _Cfg:
+    """one registry under test inside a path: the real registry, how the expected scale of a table symbol is written
+    (symbolic S[sym] or the table float), and a cache of oracle variables"""
+
+    def __init__(self, ctx, tag, plain=False):
+        self.ctx, self.tag, self.plain = ctx, tag, plain
+        self.T = tables()
+        if plain:
+            self.reg, self.S = ctx.mods["UR"].UnitRegistry(), None
+        else:
+            self.reg, self.S = sym_registry(ctx)
+        self.E = {}
+
+    def doc_value(self, name, exp):
+        if name not in self.E:
+            pv, sym = exp
+            base = float(self.T.rows[sym][0]) if self.plain else self.S[sym]
+            self.E[name] = oracle_var(self.ctx, f"e:{'plain' if self.plain else 'sym'}:{name}", base * pv)
+        return self.E[name]
+
+
+def _battery(ctx, cfg, reg, t, st, flag, present, strings, step, udims):
+    """resolve every string in the real registry and compare with the independent reading"""
+    unyt = ctx.mods["unyt"]
+    Unit = unyt.Unit
+    T = cfg.T
+    fl = "prefixable" if flag else "non-prefixable"
+    for name in strings:
+        rd = ext_reading(name, T, t, flag, present)
+        if rd is not None and rd[0] == "skip":
+            continue
+        r = call(Unit, name, registry=reg)
+        got = str(r[1])[:60] if r[0] == "ok" else type(r[1]).__name__
+        if rd is None:
+            ok = r[0] == "raise" and isinstance(r[1], unyt.exceptions.UnitParseError)
+            what = "prefix on non-prefixable added unit rejected" if (present and name != t) else "spelling of a removed unit rejected"
+            ctx.require(f"{step}/{fl}/{what}", ok, string=name, tail=t, got=got)
+        elif rd[0] == "doc":
+            E = cfg.doc_value(name, rd[1])
+            ok = r[0] == "ok" and _unit_ok(ctx, r[1], E, T, rd[1])
+            ctx.require(f"{step}/{fl}/documented name keeps its reading/{_label_of(name, T)}", ok, string=name, tail=t,
+                        expected=f"{rd[1][0]}*{rd[1][1]}", got=got)
+        else:
+            ok = r[0] == "ok" and And(close(r[1].base_value, st * rd[1]), dimvec(r[1].dimensions) == dimvec(udims))
+            what = "added unit itself" if name == t else "prefix x added unit"
+            ctx.require(f"{step}/{fl}/{what}", ok, string=name, tail=t, prefix=rd[1], got=got)
+
+
+def _strings_for(T, t, colliders, level, names_by_sym):
+    core = list(colliders) + [p + t for p in CORE_PREFIXES if p + t not in colliders] + [t]
+    if level == "core":
+        return core
+    full = list(colliders) + [p + t for p in PREFIX_SYMS if p + t not in colliders] + [t]
+    for c in colliders:                         # dependents: the other spellings of the unit a colliding spelling denotes
+        sym = _expected(c, T)[1]
+        full += [n for n in names_by_sym.get(sym, ()) if n not in full]
+    return full
+
+
+_DEP = {}
+
+
+def _names_by_sym(mods):
+    """documented spellings per canonical symbol with prefix in {none, k, m, da} (the dependents of a colliding spelling)"""
+    if not _DEP:
+        T = tables()
+        for n in _all_names(mods):
+            e = expected(n, T)
+            if e is not None and e[0] in (1.0, 1e3, 1e-3, 1e1) and n.isidentifier() and n != "_":
+                _DEP.setdefault(e[1], []).append(n)
+    return _DEP
+
+
+def run_history(ctx, hist, t, flag, colliders, level, names_by_sym, namespace=False):
+    """one history of registry calls on a fresh registry, with the battery after (and between) the steps"""
+    unyt = ctx.mods["unyt"]
+    Unit = unyt.Unit
+    T = tables()
+    D = unyt.dimensions
+    udims = D.time
+    st = ctx.real(f"u:{t}", pos=True)
+    if not ctx.symbolic:
+        st = float(st)
+    strings = _strings_for(T, t, colliders, level, names_by_sym)
+    core = _strings_for(T, t, colliders, "core", names_by_sym)
+    tex = r"\rm{" + t.replace("_", r"\ ") + "}"
+    plain = hist.startswith("plain")
+    if hist == "built":
+        # the row is part of the table the registry is constructed from
+        cfg = _Cfg(ctx, hist)
+        lut = dict(cfg.reg.lut)
+        lut[t] = (st, udims, 0.0, tex, flag)
+        cfg.reg = ctx.mods["UR"].UnitRegistry(add_default_symbols=False, lut=lut)
+        _battery(ctx, cfg, cfg.reg, t, st, flag, True, strings, hist, udims)
+        if namespace:
+            ns = {}
+            ctx.mods["US"].add_symbols(ns, cfg.reg)
+            fl = "prefixable" if flag else "non-prefixable"
+            for name in strings:
+                rd = ext_reading(name, T, t, flag, True)
+                if rd is None or rd[0] != "doc" or name not in vars(unyt.unit_symbols):
+                    continue
+                n = ns.get(name)
+                ok = n is not None and And(_unit_ok(ctx, n, cfg.doc_value(name, rd[1]), T, rd[1]), n.registry is cfg.reg)
+                ctx.require(f"{hist}/{fl}/registry-namespace/{_label_of(name, T)}", ok, string=name, tail=t, got=str(n)[:100])
+            if t not in vars(unyt.unit_symbols):
+                n = ns.get(t)
+                ok = n is not None and And(close(n.base_value, st), dimvec(n.dimensions) == dimvec(udims))
+                ctx.require(f"{hist}/{fl}/registry-namespace/added unit itself", ok, tail=t, got=str(n)[:100])
+        return
+    cfg = _Cfg(ctx, hist, plain=plain)
+    reg = cfg.reg
+    if hist in ("add", "plain-add"):
+        reg.add(t, st, udims, prefixable=flag)
+        _battery(ctx, cfg, reg, t, st, flag, True, strings if hist == "add" else core, hist, udims)
+    elif hist == "plain-define":
+        r = call(unyt.define_unit, t, (st, "s"), prefixable=flag, registry=reg)
+        if t in T.rows or any(t == p + b for p in PREFIX_SYMS for b in T.prefixable):
+            # the registry can already read t as prefix ++ prefixable table symbol ("as", "am"): define_unit must refuse
+            ctx.require(f"{hist}/define_unit refuses a symbol the registry already reads", r[0] == "raise" and isinstance(r[1], RuntimeError),
+                        tail=t, got=repr(r[1])[:100])
+            return
+        ctx.require(f"{hist}/define_unit accepted", r[0] == "ok", tail=t, got=repr(r[1])[:100])
+        if r[0] == "ok":
+            _battery(ctx, cfg, reg, t, st, flag, True, core, hist, udims)
+    elif hist == "use-add":
+        for name in core:                       # fills the unit caches before the row exists
+            rd = ext_reading(name, T, t, flag, False)
+            if rd is not None and rd[0] == "doc":
+                _battery(ctx, cfg, reg, t, st, flag, False, [name], hist + ":before", udims)
+            elif rd is None:
+                call(Unit, name, registry=reg)
+        reg.add(t, st, udims, prefixable=flag)
+        _battery(ctx, cfg, reg, t, st, flag, True, core, hist + ":after", udims)
+    elif hist == "add-remove":
+        reg.add(t, st, udims, prefixable=flag)
+        _battery(ctx, cfg, reg, t, st, flag, True, core, hist + ":added", udims)
+        reg.remove(t)
+        _battery(ctx, cfg, reg, t, st, flag, False, core, hist + ":removed", udims)
+    elif hist == "flip":
+        reg.add(t, st, udims, prefixable=not flag)
+        _battery(ctx, cfg, reg, t, st, not flag, True, core, hist + ":first", udims)
+        reg.add(t, st, udims, prefixable=flag)
+        _battery(ctx, cfg, reg, t, st, flag, True, core, hist + ":re-added", udims)
+    elif hist == "add-modify":
+        s0 = ctx.real(f"u0:{t}", pos=True)
+        if not ctx.symbolic:
+            s0 = float(s0)
+        reg.add(t, s0, udims, prefixable=flag)
+        _battery(ctx, cfg, reg, t, s0, flag, True, core, hist + ":added", udims)
+        reg.modify(t, st)
+        _battery(ctx, cfg, reg, t, st, flag, True, core, hist + ":modified", udims)
+    elif hist == "copy-remove":
+        reg.add(t, st, udims, prefixable=flag)
+        r2 = copy.copy(reg)
+        _battery(ctx, cfg, r2, t, st, flag, True, core, hist + ":copy", udims)
+        reg.remove(t)
+        _battery(ctx, cfg, r2, t, st, flag, True, core, hist + ":copy after removal from the original", udims)
+        _battery(ctx, cfg, reg, t, st, flag, False, core, hist + ":original after removal", udims)
+    else:
+        raise ValueError(hist)
+
+
+def make_custom_case(family, idx, items, hists, full, full_hists=("built",)):
+    """items: [(tail, [colliding documented spellings])]; every history x both prefixable flags in ONE path (fresh registry
+    per history; the runner clears unyt's caches only at the start of the path)"""
+    def h(ctx):
+        nbs = _names_by_sym(ctx.mods) if full else {}
+        for t, colliders in items:
+            for hist in hists:
+                for flag in (True, False):
+                    lvl = "full" if (full and hist in full_hists) else "core"
+                    run_history(ctx, hist, t, flag, colliders, lvl, nbs, namespace=(full and flag and hist == "built"))
+        ctx.observe("tails", len(items))
+    name = items[0][0] if len(items) == 1 else f"{idx:03d}"
+    return Case(f"C14/custom/{family}/{name}", h, bounds=f"{len(items)} tails x {len(hists)} histories x 2 flags, 145+2 symbolic scales",
+                budget_s=600, weight=4)
+
+
+def custom_layout(tier):
+    """[(family, [(tail, colliders)], histories, full?)] - which tails get which histories in this tier"""
+    T = tables()
+    seed = int(os.environ.get("VERIF_SEED", "0") or 0)
+    rnd = random.Random(1000 + seed)
+    seen = set()
+    out = []
+    for kind in COLLIDER_KINDS:
+        tails = py_colliders(T, kind)
+        items = [(t, c) for t, c in sorted(tails.items()) if t not in seen]
+        if kind in SAMPLED_KINDS:
+            k = {"quick": 24, "thorough": 160}[tier]
+            items = sorted(rnd.sample(items, min(k, len(items))))
+        seen |= {t for t, _ in items}
+        # all documented spellings (of any kind) that collide with prefix ++ t, not only those of the kind that produced t
+        items = [(t, sorted({d for k2 in COLLIDER_KINDS for d in py_colliders_cached(k2).get(t, ())})) for t, _ in items]
+        if kind == "symbol":
+            out.append((kind, items, HISTORIES, True))
+        elif tier == "thorough":
+            out.append((kind, items, HISTORIES, False))
+        else:
+            out.append((kind, items, ("built", "add", "plain-define"), False))
+    return out
+
+
+_COLL = {}
+
+
+def py_colliders_cached(kind):
+    if kind not in _COLL:
+        _COLL[kind] = py_colliders(tables(), kind)
+    return _COLL[kind]
+
+
 def cases(tier, mods):
     out = []
     T = tables()
@@ -336,6 +704,20 @@ def cases(tier, mods):
     sweep = sorted(set(sweep))
     for k in range(0, len(sweep), 400):
         out.append(make_reject_case(k // 400, sweep[k:k + 400], exc))
+    for kind in COLLIDER_KINDS:
+        # the unsat proof (list is complete) is always run; the all-SAT re-enumeration is quadratic in the list length
+        small = kind in ("symbol", "title-symbol")
+        out.append(make_tails_complete_case(kind, allsat=small or (tier == "thorough" and kind not in SAMPLED_KINDS)))
+    fh = ("built", "add") if tier == "thorough" else ("built",)
+    nbs = _names_by_sym(mods)
+    for family, items, hists, full in custom_layout(tier):
+        for t, colliders in items:              # fill the reader's memo before the workers are forked
+            for n in _strings_for(T, t, colliders, "full" if full else "core", nbs):
+                _expected(n, T), _label_of(n, T)
+        if full:
+            out += [make_custom_case(family, i, [it], hists, True, fh) for i, it in enumerate(items)]
+        else:
+            out += [make_custom_case(family, i // 6, items[i:i + 6], hists, False) for i in range(0, len(items), 6)]
     return out
 
 
@@ -349,7 +731,10 @@ def coverage_extra(results, tier):
         d["obligations"] += r["stats"]["obligations"]
         d["ground"] += r["stats"]["ground_true"]
     multi, exc = hint_lists()
+    tails = {f: [t for t, _ in items] for f, items, _, _ in custom_layout(tier)}
     return dict(parts=by, multi_reading_strings=multi, readable_prefix_plus_nonprefixable_strings=exc,
+                registry_configuration_tails=tails, registry_histories=list(HISTORIES),
                 note=("names/*: solver-decided (symbolic scales); strings/complete*: solver-decided (z3 sequence/regex theory, all strings); "
-                      "strings/reject*: enumerated concrete facts (exception class), only the exception list is solver-derived"))
+                      "strings/reject*: enumerated concrete facts (exception class), only the exception list is solver-derived; "
+                      "custom/*: solver-decided (symbolic table scales and scale of the added row), rejections are exception classes"))
 
